@@ -59,6 +59,44 @@ type c03Case struct {
 	Hidden  []string // actors whose inbox must be among the recipients
 	Mode    string
 	HasHide bool
+	// MustDeliver: the request, when it succeeds, has to hand a payload to
+	// the transport (Federating enabled, a deliverable type, at least one
+	// hidden recipient that resolves)
+	MustDeliver bool
+}
+
+// c03Unreachable is a pool member whose document cannot be fetched.
+const c03Unreachable = "https://gone.example/users/gone"
+
+// c03Inbox is where a pool member receives: the application-stored inbox
+// when there is one, else the inbox its document names; "" if unreachable.
+func c03Inbox(sc *sim.Scenario, actor string) string {
+	if in, ok := sc.StoredInbox[actor]; ok {
+		return in
+	}
+	if actor == c03Unreachable {
+		return ""
+	}
+	return actor + "/inbox"
+}
+
+// embeddedObjectValue draws an embedded value for the 'object' of an
+// activity other than Create: notes, but also activities, intransitive
+// activities (which have bto/bcc and no 'object' of their own), actors.
+func embeddedObjectValue(g *prng.R, i int) M {
+	switch g.Intn(9) {
+	case 0:
+		return M{"type": "Like", "id": fmt.Sprintf("%s/act/emb%d", L, i), "actor": alice(), "object": R1 + "/notes/liked"}
+	case 1:
+		return M{"type": "Question", "id": fmt.Sprintf("%s/questions/q%d", L, i), "name": "poll?"}
+	case 2:
+		return M{"type": pick(g, "Arrive", "Travel"), "id": fmt.Sprintf("%s/act/intr%d", L, i), "actor": alice()}
+	case 3:
+		return M{"type": pick(g, "Person", "Group"), "id": fmt.Sprintf("%s/users/emb%d", L, i), "name": "x"}
+	case 4:
+		return M{"type": pick(g, "Article", "Relationship", "Event"), "id": fmt.Sprintf("%s/things/e%d", L, i)}
+	}
+	return note("", nil)
 }
 
 func genC03(g *prng.R) c03Case {
@@ -70,6 +108,22 @@ func genC03(g *prng.R) c03Case {
 func genOutboxCase(g *prng.R, modes, protos []string) c03Case {
 	sc := baseScenario()
 	pool := remotePool(sc, 6)
+	// some recipients have an application-stored inbox, one cannot be fetched
+	sc.StoredInbox = map[string]string{}
+	if g.Chance(1, 3) {
+		for _, a := range pool {
+			if g.Chance(1, 3) {
+				sc.StoredInbox[a] = a + "/stored-inbox"
+			}
+		}
+	}
+	if g.Chance(1, 4) {
+		sc.Remote[c03Unreachable] = sim.RemoteSpec{Fail: true}
+		pool = append(pool, c03Unreachable)
+		if g.Chance(1, 3) {
+			pool = []string{c03Unreachable, c03Unreachable} // nobody at all can be reached
+		}
+	}
 	mode := pick(g, modes...)
 	proto := pick(g, protos...)
 	sc.Cfg.Social = proto != "federating"
@@ -82,6 +136,16 @@ func genOutboxCase(g *prng.R, modes, protos []string) c03Case {
 			sc.Cfg.OnFollow = 2
 		}
 		f := M{"type": "Follow", "id": R1 + "/act/follow1", "actor": pool[0], "object": alice()}
+		switch g.Intn(4) {
+		case 0:
+			f["actor"] = A{pool[0], M{"type": "Person", "id": pool[len(pool)-1]}}
+		case 1:
+			f["object"] = M{"type": "Person", "id": alice()}
+		}
+		sc.Cfg.FedWrapped = g.Chance(1, 4)
+		if g.Chance(1, 10) {
+			sc.Store[alice()] = M{"@context": AS, "type": "Person", "id": alice(), "outbox": aliceOut()}
+		}
 		h := genAddressing(f, pool, g, 1)
 		cs.HasHide = len(h) > 0
 		// the peer's hidden recipients are not ours to deliver to; only absence of bto/bcc is judged
@@ -115,6 +179,14 @@ func genOutboxCase(g *prng.R, modes, protos []string) c03Case {
 			o := note("", nil)
 			if typ != "Create" {
 				o["id"] = fmt.Sprintf("%s/notes/o%d", L, i)
+				if typ != "Update" && typ != "Delete" && typ != "Undo" && typ != "Add" && typ != "Remove" && g.Chance(1, 2) {
+					o = embeddedObjectValue(g, i)
+					if _, ok := o["id"]; !ok {
+						o["id"] = fmt.Sprintf("%s/notes/o%d", L, i)
+					}
+				}
+			} else if g.Chance(1, 4) {
+				o = M{"type": pick(g, "Article", "Question", "Event"), "name": "n"}
 			}
 			h := genAddressing(o, pool, g, g.Intn(2))
 			if typ == "Create" && g.Chance(1, 2) {
@@ -185,8 +257,14 @@ func genOutboxCase(g *prng.R, modes, protos []string) c03Case {
 			}
 			body["object"] = objs
 		case "Arrive", "Travel", "Question", "IntransitiveActivity":
-		default:
+		case "Follow", "Like", "Block":
 			body["object"] = objs
+		default:
+			// these types have no required-object check at the outbox: one
+			// in five goes out without 'object'
+			if !g.Chance(1, 5) {
+				body["object"] = objs
+			}
 		}
 	}
 	// an unusual stored sender: its actor document names no inbox (a
@@ -212,6 +290,20 @@ func genOutboxCase(g *prng.R, modes, protos []string) c03Case {
 			}
 		}
 	}
+	resolvable := false
+	for _, h := range cs.Hidden {
+		if c03Inbox(sc, h) != "" {
+			resolvable = true
+		}
+	}
+	switch body["type"] {
+	case "Block", "Arrive", "Travel", "Question", "IntransitiveActivity":
+	default:
+		cs.MustDeliver = resolvable
+	}
+	if _, senderOdd := sc.Store[alice()]; senderOdd {
+		cs.MustDeliver = false
+	}
 	if mode == "send" || !sc.Cfg.Social {
 		cs.Mode = "send"
 		if !sc.Cfg.Federating {
@@ -221,6 +313,9 @@ func genOutboxCase(g *prng.R, modes, protos []string) c03Case {
 	} else {
 		sc.Requests = []sim.Request{sim.PostOutboxReq(aliceOut(), withCtx(body))}
 	}
+	if !sc.Cfg.Federating {
+		cs.MustDeliver = false
+	}
 	return cs
 }
 
@@ -229,20 +324,34 @@ func genHandlerCase(g *prng.R) c03Case {
 	sc := baseScenario()
 	pool := remotePool(sc, 4)
 	depth := g.Intn(4)
+	if g.Chance(1, 8) {
+		depth = 4 + g.Intn(6)
+	}
 	all := append(append([]string{}, activityTypes...), bareTypes...)
 	var build func(d int) M
 	n := 0
 	build = func(d int) M {
 		n++
 		m := M{"type": all[g.Intn(len(all))], "id": fmt.Sprintf("%s/things/%d", L, n)}
-		if m["type"] == "Arrive" || m["type"] == "Travel" || m["type"] == "Question" || m["type"] == "IntransitiveActivity" {
-			m["type"] = "Announce"
+		intransitive := m["type"] == "Arrive" || m["type"] == "Travel" || m["type"] == "Question" || m["type"] == "IntransitiveActivity"
+		if intransitive && d < depth {
+			m["type"] = "Announce" // only a type with 'object' can carry the next level
 		}
 		genAddressing(m, pool, g, 0)
 		if d < depth {
 			objs := A{build(d + 1)}
 			if g.Chance(1, 3) {
 				objs = append(objs, build(d+1), R1+"/notes/ref")
+			}
+			// an IRI or a Link (no bto/bcc of its own) may stand anywhere
+			// in the list, the first place included
+			if g.Chance(1, 4) {
+				var extra interface{} = R1 + "/notes/first"
+				if g.Bool() {
+					extra = M{"type": "Mention", "href": R1 + "/users/mentioned", "name": "@m"}
+				}
+				at := g.Intn(len(objs) + 1)
+				objs = append(objs[:at:at], append(A{extra}, objs[at:]...)...)
 			}
 			m["object"] = objs
 		} else {
@@ -260,7 +369,7 @@ func genHandlerCase(g *prng.R) c03Case {
 func init() {
 	checks["c03"] = func(id string) int {
 		r := newRun(id, "exploration")
-		r.Rule = "every outbox-acceptable activity type and bare object type with seeded mixtures of to/bto/cc/bcc/audience (IRIs or embedded actors) on the activity and on 1..3 embedded objects, x {Social, Federating, both} x {client POST, Send, automatic Accept, automatic Reject}; plus stored values of every type with bto/bcc at 'object' depth 0..3 served by the GET handler; every payload handed to the transport and every handler body is parsed and walked through 'object'; non-trivial = the input carried bto/bcc and a payload or body was observed; distinct by scenario"
+		r.Rule = "every outbox-acceptable activity type and bare object type with seeded mixtures of to/bto/cc/bcc/audience (IRIs or embedded actors) on the activity and on 1..3 embedded objects, x {Social, Federating, both} x {client POST, Send, automatic Accept, automatic Reject}, recipients with application-stored inboxes or unreachable, senders without inbox, activities without object and with embedded objects of several kinds; a quarter of the accepted posts is followed by handler GETs of what the library stored; plus stored values of every type with bto/bcc at 'object' depth 0..9 (IRIs and Links anywhere in the lists) served by the GET handler; every payload handed to the transport and every handler body is parsed and walked through 'object'; non-trivial = the input carried bto/bcc and a payload or body was observed; distinct by scenario"
 		r.Assumptions = []string{"hidden-recipient coverage is demanded for the activity's own bto/bcc, a wrapped bare object's, and (Social enabled) a Create's embedded objects'", "the peer's bto/bcc on a received Follow are not ours to deliver to"}
 		judge := func(cs c03Case) {
 			sc := cs.Sc
@@ -297,14 +406,24 @@ func init() {
 							viol("payload-not-json", e.Site, cs.Mode, "payload does not parse")
 							continue
 						}
+						if vm, ok := v.(map[string]interface{}); ok && (cs.Mode == "auto-accept" || cs.Mode == "auto-reject") && vm["type"] != "Accept" && vm["type"] != "Reject" {
+							continue // the peer's own activity passed on (inbox forwarding), not one of ours
+						}
 						if hk := hiddenKeys(v, 0, 1, ""); len(hk) > 0 {
 							viol("hidden-recipient-delivered", e.Site, cs.Mode+" payload", fmt.Sprintf("payload contains %v", hk))
 						}
 					}
 				}
+				if payloads == 0 && rp.Err == "" && cs.MustDeliver && len(rp.Statuses) > 0 && rp.Statuses[0] == 201 || payloads == 0 && rp.Err == "" && cs.MustDeliver && cs.Mode == "send" {
+					viol("hidden-recipient-not-delivered", "pub.(*sideEffectActor).deliverToRecipients", cs.Mode+": nothing delivered", fmt.Sprintf("the request succeeded but nothing was handed to the transport; hidden recipients %v", cs.Hidden))
+				}
 				if payloads > 0 && rp.Err == "" {
 					for _, h := range cs.Hidden {
-						if !contains(recips, h+"/inbox") {
+						want := c03Inbox(sc, h)
+						if want == "" {
+							continue // cannot be fetched: skipped by design
+						}
+						if !contains(recips, want) {
 							viol("hidden-recipient-not-delivered", "pub.(*sideEffectActor).prepare", cs.Mode, fmt.Sprintf("hidden recipient %s did not receive the delivery; recipients %v", h, recips))
 						}
 					}
@@ -343,6 +462,41 @@ func init() {
 					r.Sample(map[string]interface{}{"mode": cs.Mode, "request": cs.Sc.Requests[0], "social": cs.Sc.Cfg.Social, "federating": cs.Sc.Cfg.Federating})
 				}
 				judge(cs)
+				// one case in four: what the library itself stored while
+				// handling the request (the activity with its hidden
+				// recipients, a Create's objects) is then asked for through
+				// the GET handler
+				if i%4 == 0 && cs.HasHide && (cs.Mode == "post" || cs.Mode == "send") {
+					first := sim.Run(cs.Sc)
+					if len(first.Issued) == 0 || first.Responses[0].Err != "" {
+						return
+					}
+					sc2 := cloneScenario(cs.Sc)
+					sc2.Name = cs.Sc.Name + "+get"
+					ids := first.Issued
+					if len(ids) > 4 {
+						ids = ids[:4]
+					}
+					for _, id := range ids {
+						sc2.Requests = append(sc2.Requests, sim.GetReq("Handler", id))
+					}
+					res := sim.Run(sc2)
+					r.Eval(1)
+					for k, rp := range res.Responses[1:] {
+						if rp.Err != "" || len(rp.Body) == 0 || rp.Panic != "" {
+							continue
+						}
+						r.Count("payloads_observed.handler-after-post", 1)
+						v, ok := parseJSON(rp.Body)
+						if !ok {
+							continue
+						}
+						if hk := hiddenKeys(v, 0, 99, ""); len(hk) > 0 {
+							r.Violate(verdict.Sig{Rule: "C03.hidden-recipient-served", Site: "pub.clearSensitiveFields", Feature: "value stored by the outbox, then served"}, witness{Scenario: sc2},
+								map[string]interface{}{"message": fmt.Sprintf("GET %s: body contains %v", sc2.Requests[k+1].URL, hk), "response": rp})
+						}
+					}
+				}
 			})
 		}
 		for i := 0; i < nh; i++ {
